@@ -1,6 +1,7 @@
 from . import hubprops
 
-hubprops.PLAN["C05"] = [{"fam": "Routing", "num_q": 60, "num_t": 600, "depth": 80}]
+hubprops.PLAN["C05"] = [{"fam": "Routing", "num_q": 50, "num_t": 600, "depth": 80},
+                       {"fam": "Failures", "num_q": 60, "num_t": 600, "depth": 80}]
 
 
 def run(tier, seed):
